@@ -1,5 +1,365 @@
-/- Model for C04 (core Lean only, no Mathlib). -/
+/-
+Model for C04 (core Lean only, no Mathlib): `Tiles`, `VariableSizedTiles`, `clip_tiles`
+(`odc/geo/roi.py`), `GeoboxTiles.__getitem__/chunk_shape/chunks/_crop/clip`
+(`odc/geo/geobox.py`) and `BlockAssembler` (`odc/geo/_blocks.py`).
+
+The library computes every 2-D answer by zipping a one-axis computation over `(y, x)`; the
+model defines the one-axis functions and lifts them with `zip2` (first error wins – all errors
+of one function are of the same kind, so evaluation order is not observable).
+
+Python ints are unbounded → `Int`.  The only narrowing is the `int32` cumulative sum of
+`VariableSizedTiles.__init__`; it is modelled (`wrap32`) and the theorems carry the
+hypothesis `Σ chunks < 2^31`.
+-/
 import OdcGeo.Model.IO
+import OdcGeo.Model.C17
+import OdcGeo.Model.Affine
+import OdcGeo.Spec.PySlice
+import OdcGeo.Spec.NpArray
 namespace OdcGeo.C04
+open OdcGeo OdcGeo.C17 OdcGeo.NpArray
+
+/-- the pixel range `[s.start, s.stop)` contains `y` -/
+def _root_.OdcGeo.C17.NSlice.Has (s : NSlice) (y : Int) : Prop := s.start ≤ y ∧ y < s.stop
+
+/-- lift a one-axis computation to `(y, x)` -/
+def zip2 {α} (y x : Res α) : Res (α × α) := do
+  let a ← y
+  let b ← x
+  return (a, b)
+
+/-! ## `Tiles`  (roi.py:115-231) -/
+
+/-- exact `ceil(N / n)` for `n ≠ 0` (the code computes `int(math.ceil(float(N) / n))`). -/
+def ceilDiv (N n : Int) : Int :=
+  if n > 0 then (N + n - 1) / n else ((-N) + (-n) - 1) / (-n)
+
+/-- `Tiles.__init__`: number of tiles on one axis; `float(N)/0` raises. -/
+def mkCount (N n : Int) : Res Int :=
+  if n = 0 then .error .zeroDiv else .ok (ceilDiv N n)
+
+/-- `Tiles.shape` on one axis (for a constructed object, i.e. `n ≠ 0`). -/
+def count (N n : Int) : Int := ceilDiv N n
+
+/-- `Tiles.__getitem__`, one axis: `norm_slice_2d` then `_slice(i, N, n)`. -/
+def getItem (N n : Int) (idx : PIdx) : Res NSlice :=
+  let i := normSlice idx (count N n)
+  let i_in := i.start * n
+  let i_out := i.stop * n
+  if 0 ≤ i_in ∧ i_in < N ∧ i_out < N + n then .ok ⟨i_in, min i_out N⟩
+  else .error .indexError
+
+/-- `Tiles.tile_shape`'s `_sz(i, n, tile_sz, total_sz)` (as repaired: the edge-tile test
+`0 <= i == n - 1` no longer accepts index `-1` of an empty tiling). -/
+def tileShape (N n : Int) (i : Int) : Res Int :=
+  let T := count N n
+  let i := if i < 0 then T + i else i
+  if 0 ≤ i ∧ i < T - 1 then .ok n
+  else if 0 ≤ i ∧ i = T - 1 then .ok (N - i * n)
+  else .error .indexError
+
+/-- `Tiles.chunks`, one axis: `(ny,) * (NY - 1) + (ny_,)`. -/
+def chunks (N n : Int) : Res (List Int) := do
+  let T := count N n
+  let a ← tileShape N n 0
+  let b ← tileShape N n (T - 1)
+  return List.replicate (T - 1).toNat a ++ [b]
+
+/-- `Tiles.locate`, one axis: range check, then `y // tile_shape((0, 0))`. -/
+def locate (N n : Int) (y : Int) : Res Int :=
+  if y < 0 ∨ y ≥ N then .error .indexError
+  else do
+    let ny ← tileShape N n 0
+    return y / ny
+
+/-- `Tiles.crop`, one axis: base size of the cropped tiling (tile size is kept). -/
+def crop (N n : Int) (idx : PIdx) : Res Int := do
+  let s ← getItem N n idx
+  return s.stop - s.start
+
+/-! ## `clip_tiles`  (roi.py:98-112) -/
+
+def minL : Int → List Int → Int
+  | a, [] => a
+  | a, x :: xs => minL (min a x) xs
+def maxL : Int → List Int → Int
+  | a, [] => a
+  | a, x :: xs => maxL (max a x) xs
+
+/-- per-axis part of `clip_tiles`: `(y1, y2)` and the re-based selection;
+`np.asarray([]).min()` raises `ValueError`. -/
+def clipSel (sel : List Int) : Res (Int × Int × List Int) :=
+  match sel with
+  | [] => .error .valueError
+  | x :: xs =>
+    let y1 := minL x xs
+    let y2 := maxL x xs
+    .ok (y1, y2, sel.map (· - y1))
+
+/-- `clip_tiles(Tiles, selection)`, one axis → `(base', roi, sel_new)`. -/
+def clipTiles (N n : Int) (sel : List Int) : Res (Int × NSlice × List Int) := do
+  let (y1, y2, new) ← clipSel sel
+  let N' ← crop N n (.slc (some y1) (some (y2 + 1)))
+  return (N', ⟨y1, y2 + 1⟩, new)
+
+/-! ## `VariableSizedTiles`  (roi.py:234-327) — one axis is a chunk tuple `ch` -/
+
+/-- value of a Python int after a round trip through `int32` arithmetic -/
+def wrap32 (x : Int) : Int := (x + 2147483648) % 4294967296 - 2147483648
+
+/-- `cumsum(dtype="int32")` continued from accumulator `acc` -/
+def cumsum32 : Int → List Int → List Int
+  | _, [] => []
+  | acc, c :: cs => let a := wrap32 (acc + c); a :: cumsum32 a cs
+
+/-- `np.asarray([0, *ch], dtype="int32").cumsum(dtype="int32")` (elements of `ch` are in
+`int32` range, otherwise numpy 2 raises `OverflowError` – outside the modelled domain). -/
+def offsets (ch : List Int) : List Int := 0 :: cumsum32 0 ch
+
+/-- `.shape`: `len(offsets) - 1` -/
+def vcount (ch : List Int) : Int := ((offsets ch).length : Int) - 1
+
+def lastOr (a : Int) : List Int → Int
+  | [] => a
+  | x :: xs => lastOr x xs
+
+/-- `.base`: `int(offsets[-1])` -/
+def vbase (ch : List Int) : Int := lastOr 0 (cumsum32 0 ch)
+
+/-- `np.diff` of an `int32` array (differences wrap like every `int32` operation) -/
+def diff32 : List Int → List Int
+  | a :: b :: rest => wrap32 (b - a) :: diff32 (b :: rest)
+  | _ => []
+
+/-- `.chunks`: `tuple(np.diff(offsets).tolist())` -/
+def vchunks (ch : List Int) : List Int := diff32 (offsets ch)
+
+/-- `VariableSizedTiles.__getitem__`, one axis (as repaired: an int index below `-T`,
+which `_norm_slice` leaves negative, raises instead of wrapping around `offsets`). -/
+def vgetItem (ch : List Int) (idx : PIdx) : Res NSlice :=
+  let i := normSlice idx (vcount ch)
+  if i.start < 0 then .error .indexError
+  else do
+    let a ← npGet (offsets ch) i.start
+    let b ← npGet (offsets ch) i.stop
+    return ⟨a, b⟩
+
+/-- `VariableSizedTiles.tile_shape`, one axis (as repaired: negative indices count from the
+end of the *tiles*, anything outside `[-T, T)` raises). -/
+def vtileShape (ch : List Int) (i : Int) : Res Int :=
+  let T := vcount ch
+  let i := if i < 0 then T + i else i
+  if i < 0 ∨ i ≥ T then .error .indexError
+  else do
+    let a ← npGet (offsets ch) i
+    let b ← npGet (offsets ch) (i + 1)
+    return b - a
+
+/-- `VariableSizedTiles.locate`, one axis. -/
+def vlocate (ch : List Int) (y : Int) : Res Int :=
+  if y < 0 ∨ y ≥ vbase ch then .error .indexError
+  else .ok (searchsortedRight (cumsum32 0 ch) y)
+
+/-- `VariableSizedTiles.crop`, one axis: the chunk tuple of the cropped tiling. -/
+def vcrop (ch : List Int) (idx : PIdx) : List Int :=
+  let s := normSlice idx (vcount ch)
+  pySlice (vchunks ch) s.start s.stop
+
+/-- `clip_tiles(VariableSizedTiles, selection)`, one axis → `(chunks', roi, sel_new)`. -/
+def vclipTiles (ch : List Int) (sel : List Int) : Res (List Int × NSlice × List Int) := do
+  let (y1, y2, new) ← clipSel sel
+  return (vcrop ch (.slc (some y1) (some (y2 + 1))), ⟨y1, y2 + 1⟩, new)
+
+/-! ## the `RoiTiles` protocol on one axis, and its 2-D lift -/
+
+inductive Tiling where
+  | reg (N n : Int)
+  | var (ch : List Int)
+  deriving Repr
+
+namespace Tiling
+def count : Tiling → Int
+  | .reg N n => C04.count N n
+  | .var ch => vcount ch
+def base : Tiling → Int
+  | .reg N _ => N
+  | .var ch => vbase ch
+def getItem : Tiling → PIdx → Res NSlice
+  | .reg N n, i => C04.getItem N n i
+  | .var ch, i => vgetItem ch i
+def tileShape : Tiling → Int → Res Int
+  | .reg N n, i => C04.tileShape N n i
+  | .var ch, i => vtileShape ch i
+def chunks : Tiling → Res (List Int)
+  | .reg N n => C04.chunks N n
+  | .var ch => .ok (vchunks ch)
+def locate : Tiling → Int → Res Int
+  | .reg N n, y => C04.locate N n y
+  | .var ch, y => vlocate ch y
+def crop : Tiling → PIdx → Res Tiling
+  | .reg N n, i => do let N' ← C04.crop N n i; return .reg N' n
+  | .var ch, i => .ok (.var (vcrop ch i))
+end Tiling
+
+/-- a 2-D tiling: `(rows, cols)` -/
+structure Tiling2 where
+  y : Tiling
+  x : Tiling
+
+def getItem2 (t : Tiling2) (iy ix : PIdx) : Res (NSlice × NSlice) :=
+  zip2 (t.y.getItem iy) (t.x.getItem ix)
+def tileShape2 (t : Tiling2) (iy ix : Int) : Res (Int × Int) :=
+  zip2 (t.y.tileShape iy) (t.x.tileShape ix)
+def chunks2 (t : Tiling2) : Res (List Int × List Int) := zip2 t.y.chunks t.x.chunks
+def locate2 (t : Tiling2) (py px : Int) : Res (Int × Int) :=
+  zip2 (t.y.locate py) (t.x.locate px)
+def crop2 (t : Tiling2) (iy ix : PIdx) : Res Tiling2 := do
+  let (a, b) ← zip2 (t.y.crop iy) (t.x.crop ix)
+  return ⟨a, b⟩
+
+/-! ## `GeoboxTiles`  (geobox.py:1299-1395) -/
+
+/-- a linear `GeoBox`: shape and pixel-to-world affine (the CRS is carried along unchanged) -/
+structure GBox where
+  ny : Int
+  nx : Int
+  A : Aff
+  deriving Repr
+
+/-- `GeoBox.__getitem__` for a pair of slices (`compute_crop`, geobox.py:305-339):
+`roi_normalise`, then `affine * translation(tx, ty)` and `roi_shape`. -/
+def GBox.crop (g : GBox) (ry rx : PIdx) : GBox :=
+  let sy := normSlice ry g.ny
+  let sx := normSlice rx g.nx
+  ⟨sy.stop - sy.start, sx.stop - sx.start, g.A * Aff.translation sx.start sy.start⟩
+
+structure GeoboxTiles where
+  base : GBox
+  tiles : Tiling2
+
+/-- `GeoboxTiles.__getitem__`: `self._gbox[self._tiles[idx]]` -/
+def GeoboxTiles.getItem (g : GeoboxTiles) (iy ix : PIdx) : Res GBox := do
+  let (ry, rx) ← getItem2 g.tiles iy ix
+  return g.base.crop ry.toPIdx rx.toPIdx
+
+/-- `GeoboxTiles._crop(roi)` -/
+def GeoboxTiles.crop (g : GeoboxTiles) (iy ix : PIdx) : Res GeoboxTiles := do
+  let (ry, rx) ← getItem2 g.tiles iy ix
+  let t ← crop2 g.tiles iy ix
+  return ⟨g.base.crop ry.toPIdx rx.toPIdx, t⟩
+
+/-- `GeoboxTiles.clip(selection)` (with `clip_tiles`): cropped tiling + re-based selection -/
+def GeoboxTiles.clip (g : GeoboxTiles) (sel : List (Int × Int)) :
+    Res (GeoboxTiles × List (Int × Int)) := do
+  let (y1, y2, _) ← clipSel (sel.map (·.1))
+  let (x1, x2, _) ← clipSel (sel.map (·.2))
+  let iy : PIdx := .slc (some y1) (some (y2 + 1))
+  let ix : PIdx := .slc (some x1) (some (x2 + 1))
+  let t ← crop2 g.tiles iy ix
+  let gb ← g.getItem iy ix
+  return (⟨gb, t⟩, sel.map fun (y, x) => (y - y1, x - x1))
+
+/-! ## `BlockAssembler`  (_blocks.py:33-167)
+
+Arrays are functions from indices to cell values.  A block array has the index
+`(lead, y, x, trail)` where `lead` / `trail` are the index vectors of the axes before / after
+the `Y, X` pair (`axis = lead.length`).  The cell type is an arbitrary `Val`; casting / dtype
+promotion is numpy's and is not modelled. -/
+
+abbrev Arr (Val : Type) := List Int → Int → Int → List Int → Val
+
+structure Assembler (Val : Type) where
+  chy : List Int
+  chx : List Int
+  /-- keys of the `blocks` mapping, in iteration order -/
+  present : List (Int × Int)
+  /-- the block stored under a key -/
+  blk : Int × Int → Arr Val
+  /-- sizes of the axes before / after `Y, X` -/
+  lead : List Int
+  trail : List Int
+
+/-- per-axis index maps of `zip`ped extra axes -/
+def mapIdx : List (Int → Option Int) → List Int → Option (List Int)
+  | [], [] => some []
+  | f :: fs, j :: js => do
+    let a ← f j
+    let rest ← mapIdx fs js
+    return a :: rest
+  | _, _ => none
+
+/-- extra axes: destination `slice(None)` of a `roi_shape`-sized axis, source `roi[k]` of the
+block's axis of size `n`. -/
+def extraMaps : List Int → List NSlice → Res (List (Int → Option Int))
+  | [], [] => .ok []
+  | n :: ns, w :: ws => do
+    let len := w.stop - w.start
+    let m ← assignMap len n ⟨0, len⟩ w
+    let rest ← extraMaps ns ws
+    return m :: rest
+  | _, _ => .error .indexError
+
+/-- Python `sum(chunks)` -/
+def total : List Int → Int
+  | [] => 0
+  | c :: cs => c + total cs
+
+/-- one iteration of the paste loop of `extract` -/
+def pasteBlock {Val} (a : Assembler Val) (wl : List NSlice) (wy wx : NSlice) (wt : List NSlice)
+    (xx : Arr Val) (key : Int × Int) : Res (Arr Val) := do
+  -- yx_roi_b = self._tiles[idx]
+  let (by_, bx) ← zip2 (vgetItem a.chy (.idx key.1)) (vgetItem a.chx (.idx key.2))
+  -- s_roi, d_roi, _ = roi_intersect3(yx_roi_b, yx_roi)
+  let (sy, dy, _) ← sliceIntersect3 by_.toPIdx wy.toPIdx
+  let (sx, dx, _) ← sliceIntersect3 bx.toPIdx wx.toPIdx
+  -- np.copyto(xx[d_roi], block[s_roi])
+  let my ← assignMap (wy.stop - wy.start) (by_.stop - by_.start) dy sy
+  let mx ← assignMap (wx.stop - wx.start) (bx.stop - bx.start) dx sx
+  let ml ← extraMaps a.lead wl
+  let mt ← extraMaps a.trail wt
+  let src := a.blk key
+  return fun l y x t =>
+    match mapIdx ml l, my y, mx x, mapIdx mt t with
+    | some l', some y', some x', some t' => src l' y' x' t'
+    | _, _, _, _ => xx l y x t
+
+def pasteAll {Val} (a : Assembler Val) (wl : List NSlice) (wy wx : NSlice) (wt : List NSlice) :
+    Arr Val → List (Int × Int) → Res (Arr Val)
+  | xx, [] => .ok xx
+  | xx, k :: ks => do
+    let xx' ← pasteBlock a wl wy wx wt xx k
+    pasteAll a wl wy wx wt xx' ks
+
+/-- `BlockAssembler.extract(fill, roi=...)` for a roi of slices / ints on `Y, X` and slices on
+the other axes: `_norm_roi` (`roi_normalise` against the full shape), `np.full` of
+`roi_shape` (a negative extent raises `ValueError`), then the paste loop.  Returns the result
+shape `(lead, ny, nx, trail)` and the cells. -/
+def extract {Val} (a : Assembler Val) (fill : Val) (rl : List PIdx) (ry rx : PIdx)
+    (rt : List PIdx) : Res ((List Int × Int × Int × List Int) × Arr Val) := do
+  if rl.length ≠ a.lead.length ∨ rt.length ≠ a.trail.length then throw .indexError
+  let wl := (rl.zip a.lead).map fun (s, n) => normSlice s n
+  let wt := (rt.zip a.trail).map fun (s, n) => normSlice s n
+  -- `self._shape` holds the Python `sum(chy), sum(chx)`
+  let wy := normSlice ry (total a.chy)
+  let wx := normSlice rx (total a.chx)
+  let shp := (wl.map fun w => w.stop - w.start, wy.stop - wy.start, wx.stop - wx.start,
+              wt.map fun w => w.stop - w.start)
+  if shp.1.any (· < 0) ∨ shp.2.1 < 0 ∨ shp.2.2.1 < 0 ∨ shp.2.2.2.any (· < 0) then
+    throw .valueError
+  let xx ← pasteAll a wl wy wx wt (fun _ _ _ _ => fill) a.present
+  return (shp, xx)
+
+/-! ### `planes_yx`  (_blocks.py:156-167) -/
+
+/-- `np.ndindex(shape)`: all index vectors in lexicographic order -/
+def ndindex : List Nat → List (List Nat)
+  | [] => [[]]
+  | n :: ns => (List.range n).flatMap fun i => (ndindex ns).map fun rest => i :: rest
+
+/-- `planes_yx`: the `Y, X` pair spliced into every index of the other axes at `axis`;
+`none` stands for the `(ry, rx)` placeholder. -/
+def planesYX (lead trail : List Nat) : List (List (Option Nat)) :=
+  (ndindex (lead ++ trail)).map fun idx =>
+    (idx.take lead.length).map some ++ [none, none] ++ (idx.drop lead.length).map some
 
 end OdcGeo.C04
